@@ -124,12 +124,227 @@ def part_pars(pars, mapping, pinfo):
     return out
 
 
+
+class Untranslatable(Exception):
+    pass
+
+
+def _translate_mixture_parts():
+    """The integer arithmetic of mixture._MixtureParts (__init__, __iter__, __next__, _part_values, _part_details) of
+    the current mixture.py, over Z.  Fail-closed Python-ast walk."""
+    import ast, os
+    import sasmodels.mixture as mix
+    tree = ast.parse(open(os.path.join(common.REPO, "sasmodels", "mixture.py")).read())
+    fns = {}
+    for node in tree.body:
+        if isinstance(node, ast.ClassDef) and node.name == "_MixtureParts":
+            for it in node.body:
+                if isinstance(it, ast.FunctionDef):
+                    fns[it.name] = it
+    for need in ("__init__", "__iter__", "__next__", "_part_values", "_part_details"):
+        if need not in fns:
+            raise Untranslatable("_MixtureParts.%s not found" % need)
+    consts = {}
+    for cname in ("NUM_COMMON_PARS", "NUM_MAGNETIC_PARS", "NUM_MAGFIELD_PARS"):
+        v = getattr(mix, cname, None)
+        if not isinstance(v, int):
+            raise Untranslatable("constant %s" % cname)
+        consts[cname] = v
+    IS_SUM = "self.model_info.operation == '+'"
+
+    def ex(e, env):
+        txt = ast.unparse(e)
+        if txt in env:
+            return env[txt]
+        if isinstance(e, ast.Constant) and isinstance(e.value, int) and not isinstance(e.value, bool):
+            return "%d" % e.value
+        if isinstance(e, ast.Name) and e.id in consts:
+            return "%d" % consts[e.id]
+        if isinstance(e, ast.BinOp) and type(e.op) in (ast.Add, ast.Sub, ast.Mult):
+            op = {ast.Add: "+", ast.Sub: "-", ast.Mult: "*"}[type(e.op)]
+            return "(%s %s %s)" % (ex(e.left, env), op, ex(e.right, env))
+        if isinstance(e, ast.IfExp) and ast.unparse(e.test) == IS_SUM:
+            return "(if sum then %s else %s)" % (ex(e.body, env), ex(e.orelse, env))
+        raise Untranslatable("expression %s" % txt[:60])
+
+    def body_of(fn):
+        return [st for st in fn.body if not (isinstance(st, ast.Expr) and isinstance(st.value, ast.Constant))]
+
+    # __init__: spin_index
+    spin = None
+    for st in body_of(fns["__init__"]):
+        if isinstance(st, ast.Assign) and ast.unparse(st.targets[0]) == "self.spin_index":
+            spin = ex(st.value, {"model_info.parameters.npars": "total_npars"})
+    if spin is None:
+        raise Untranslatable("spin_index not assigned in __init__")
+    # __iter__
+    init = {}
+    for st in body_of(fns["__iter__"]):
+        t = ast.unparse(st)
+        if t in ("self.part_num = 0", "return self"):
+            continue
+        if isinstance(st, ast.Assign) and ast.unparse(st.targets[0]) in ("self.par_index", "self.mag_index"):
+            init[ast.unparse(st.targets[0])] = ex(st.value, {"self.spin_index": "spin_index"})
+            continue
+        raise Untranslatable("__iter__: %s" % t[:60])
+    if set(init) != {"self.par_index", "self.mag_index"}:
+        raise Untranslatable("__iter__ does not set par_index and mag_index")
+    # __next__
+    env = {"self.par_index": "par_index", "self.mag_index": "mag_index", "info.parameters.npars": "npars",
+           "len(info.parameters.magnetism_index)": "nmag"}
+    cur = {"self.par_index": "par_index", "self.mag_index": "mag_index"}
+    skip = {"info = self.parts[self.part_num]", "kernel = self.kernels[self.part_num]",
+            "call_details = self._part_details(info, self.par_index)",
+            "values = self._part_values(info, self.par_index, self.mag_index)", "values = values.astype(kernel.dtype)",
+            "self.part_num += 1", "return (kernel, call_details, values)", "return kernel, call_details, values"}
+    seen_calls = False
+    def aug(st):
+        tgt = ast.unparse(st.target)
+        if tgt not in cur or not isinstance(st.op, ast.Add):
+            raise Untranslatable("__next__: %s" % ast.unparse(st)[:60])
+        cur[tgt] = "(%s + %s)" % (cur[tgt], ex(st.value, env))
+    for st in body_of(fns["__next__"]):
+        t = ast.unparse(st)
+        if t.startswith("if self.part_num >= len(self.parts)"):
+            continue
+        if t in skip:
+            if t.startswith("values = self._part_values") or t.startswith("call_details = self._part_details"):
+                if cur != {"self.par_index": "par_index", "self.mag_index": "mag_index"}:
+                    raise Untranslatable("the indices are advanced before the part is built")
+                seen_calls = True
+            continue
+        if isinstance(st, ast.AugAssign):
+            aug(st); continue
+        if isinstance(st, ast.If) and ast.unparse(st.test) == IS_SUM and not st.orelse and all(isinstance(x, ast.AugAssign) for x in st.body):
+            before = dict(cur)
+            for x in st.body:
+                aug(x)
+            for k in cur:
+                if cur[k] != before[k]:
+                    cur[k] = "(if sum then %s else %s)" % (cur[k], before[k])
+            continue
+        raise Untranslatable("__next__: %s" % t[:60])
+    if not seen_calls:
+        raise Untranslatable("__next__ does not build the part")
+    # _part_values
+    envv = {"par_index": "par_index", "mag_index": "mag_index", "info.parameters.npars": "npars", "self.spin_index": "spin_index",
+            "len(info.parameters.magnetism_index)": "nmag", "self.model_info.parameters.nvalues": "nvalues",
+            "self.call_details.num_weights": "nweights"}
+    out = {}
+    def sl(e):     # self.values[a:b]
+        if not (isinstance(e, ast.Subscript) and ast.unparse(e.value) == "self.values" and isinstance(e.slice, ast.Slice)):
+            raise Untranslatable("slice %s" % ast.unparse(e)[:60])
+        return ex(e.slice.lower, envv), ex(e.slice.upper, envv)
+    order = None
+    for st in body_of(fns["_part_values"]):
+        t = ast.unparse(st)
+        if isinstance(st, ast.Assign) and len(st.targets) == 1 and isinstance(st.targets[0], ast.Name):
+            nm, v = st.targets[0].id, st.value
+            if nm == "scale":
+                if not (isinstance(v, ast.IfExp) and ast.unparse(v.test) == IS_SUM and ast.unparse(v.body).startswith("self.values[") and ast.unparse(v.orelse) == "1.0"):
+                    raise Untranslatable("scale: %s" % t[:80])
+                out["scale_index"] = ex(v.body.slice, envv)
+            elif nm == "pars":
+                out["pars"] = sl(v)
+            elif nm == "weights":
+                out["weights"] = sl(v)
+            elif nm in ("diff", "nmagnetic", "nvalues", "nweights"):
+                envv[nm] = ex(v, envv)
+            elif nm == "zero" or nm == "spacer":
+                continue
+            elif nm == "values":
+                if isinstance(v, ast.List):
+                    order = t
+                continue
+            else:
+                raise Untranslatable("_part_values: %s" % t[:60])
+            continue
+        if isinstance(st, ast.If) and ast.unparse(st.test) == "nmagnetic":
+            th = {ast.unparse(x.targets[0]): x.value for x in st.body if isinstance(x, ast.Assign)}
+            el = {ast.unparse(x.targets[0]): ast.unparse(x.value) for x in st.orelse if isinstance(x, ast.Assign)}
+            if set(th) != {"spin_state", "mag_index"} or el != {"spin_state": "[]", "mag_index": "[]"}:
+                raise Untranslatable("magnetic branch: %s" % t[:100])
+            out["spin"] = sl(th["spin_state"]); out["mag"] = sl(th["mag_index"])
+            continue
+        if t.startswith("values.append(") or t == "return values":
+            continue
+        raise Untranslatable("_part_values: %s" % t[:60])
+    if order != "values = [[scale, zero], pars, spin_state, mag_index, weights]":
+        raise Untranslatable("order of the part's value vector: %s" % order)
+    for k in ("scale_index", "pars", "spin", "mag", "weights"):
+        if k not in out:
+            raise Untranslatable("%s not found in _part_values" % k)
+    # _part_details
+    envd = {"par_index": "par_index", "info.parameters.npars": "npars"}
+    det = None
+    for st in body_of(fns["_part_details"]):
+        t = ast.unparse(st)
+        if isinstance(st, ast.Assign) and len(st.targets) == 1 and isinstance(st.targets[0], ast.Name):
+            nm, v = st.targets[0].id, st.value
+            if nm == "diff":
+                envd["diff"] = ex(v, envd)
+            elif nm == "index":
+                if not (isinstance(v, ast.Call) and ast.unparse(v.func) == "slice" and len(v.args) == 2):
+                    raise Untranslatable("index: %s" % t[:60])
+                det = (ex(v.args[0], envd), ex(v.args[1], envd))
+            elif nm in ("full", "length", "offset", "part"):
+                if nm in ("length", "offset") and ast.unparse(v) != "full.%s[index]" % nm:
+                    raise Untranslatable("_part_details: %s" % t[:60])
+                continue
+            else:
+                raise Untranslatable("_part_details: %s" % t[:60])
+            continue
+        if t == "return part":
+            continue
+        raise Untranslatable("_part_details: %s" % t[:60])
+    if det is None:
+        raise Untranslatable("no index slice in _part_details")
+    return dict(spin=spin, init=(init["self.par_index"], init["self.mag_index"]), adv=(cur["self.par_index"], cur["self.mag_index"]),
+                slices=[out["scale_index"], out["pars"][0], out["pars"][1], out["spin"][0], out["spin"][1], out["mag"][0], out["mag"][1],
+                        out["weights"][0], out["weights"][1], det[0], det[1]])
+
+
+def gen():
+    """Regenerate Gen/C08_code.v from the text of mixture.py (_MixtureParts)."""
+    import os
+    lines = ["(* GENERATED by harness/c08.py from sasmodels/mixture.py: the index arithmetic of _MixtureParts over Z.",
+             "   code_slices: scale index, pars [lo,hi), spin state [lo,hi), magnetic triples [lo,hi), weights [lo,hi), lengths/offsets rows [lo,hi) *)",
+             "From Coq Require Import ZArith List Bool.", "Import ListNotations.", "Local Open Scope Z_scope.", ""]
+    note = None
+    try:
+        t = _translate_mixture_parts()
+    except (Untranslatable, OSError, SyntaxError, AttributeError, KeyError) as exc:
+        note = "%s: %s" % (type(exc).__name__, exc)
+        t = None
+    lines.append("Definition translated : bool := %s." % ("true" if note is None else "false"))
+    if note:
+        lines.append("(* not translated: %s *)" % note.replace("*)", "* )"))
+    lines.append("")
+    if t is None:
+        lines += ["Definition code_spin_index (total_npars : Z) : Z := 0.",
+                  "Definition code_init (spin_index : Z) : Z * Z := (0, 0).",
+                  "Definition code_advance (sum : bool) (par_index mag_index npars nmag : Z) : Z * Z := (0, 0).",
+                  "Definition code_slices (sum : bool) (spin_index par_index mag_index npars nmag nvalues nweights : Z) : list Z := @nil Z.", ""]
+    else:
+        lines += ["Definition code_spin_index (total_npars : Z) : Z := %s." % t["spin"],
+                  "Definition code_init (spin_index : Z) : Z * Z := (%s, %s)." % t["init"],
+                  "Definition code_advance (sum : bool) (par_index mag_index npars nmag : Z) : Z * Z :=\n  (%s,\n   %s)." % t["adv"],
+                  "Definition code_slices (sum : bool) (spin_index par_index mag_index npars nmag nvalues nweights : Z) : list Z :=\n  [ " + ";\n    ".join(t["slices"]) + " ].", ""]
+    common.write_if_changed(os.path.join(common.THEORIES, "Gen", "C08_code.v"), "\n".join(lines))
+    return note
+
+
 def main(run):
     from sasmodels.core import load_model_info, build_model
     from sasmodels.direct_model import call_kernel
     rng = random.Random(run.seed * 104729 + 8)
     thorough = run.tier == "thorough"
-    run.prove(["C08/Property.v"])
+    note = []
+    run.prove(["C08/Property.v"], gen=lambda: note.append(gen()))
+    if note and note[0]:
+        run.notes.append("_MixtureParts not translated (%s): the source-text obligations C08_code_* are vacuous in this run, the behavioural tie decides" % note[0])
+    else:
+        run.notes.append("the index arithmetic of mixture._MixtureParts translated from the current mixture.py (Gen/C08_code.v) and proved equal to the model (C08_code_iterator, C08_code_slices)")
     exprs = QUICK_EXPRS + (THOROUGH_EXTRA if thorough else [])
     nrep = 3 if not thorough else 12
     cases, metas = [], []
